@@ -62,7 +62,8 @@ Proof. destruct g; exact I. Qed.
 (* length constraints only (enough for the proximal to preserve lengths) *)
 Fixpoint lenwf (n : nat) (e : fxR) : Prop :=
   match e with
-  | FLeft _ f | FRight _ f | FRightVec _ f | FScalarSum f _ | FDefConj f | FBreg f => lenwf n f
+  | FLeft _ f | FRight _ f | FScalarSum f _ | FDefConj f | FBreg f => lenwf n f
+  | FRightVec v f => length v = n /\ lenwf n f
   | FSum f g | FInfConv f g => lenwf n f /\ lenwf n g
   | FTransl f t => length t = n /\ lenwf n f
   | FQuadPert f _ u _ => length u = n /\ lenwf n f
@@ -101,8 +102,8 @@ Proof.
     apply lenwf_mul_right. unfold rmul. destruct (s =? nzero)%num; [exact I|]. apply lenwf_mkLeft. eauto.
   - (* FRight *) destruct (cconj w f) as [f'|] eqn:E; cbn [rbind] in Hc; [|discriminate].
     destruct (s =? nzero)%num; [discriminate|]. injection Hc as <-. apply lenwf_mul_right. eauto.
-  - (* FRightVec *) destruct (cconj w f) as [f'|] eqn:E; cbn [rbind] in Hc; [|discriminate].
-    injection Hc as <-. cbn [lenwf]. eauto.
+  - (* FRightVec *) destruct Hl as [Lv Hl]. destruct (cconj w f) as [f'|] eqn:E; cbn [rbind] in Hc; [|discriminate].
+    injection Hc as <-. cbn [lenwf]. rewrite map_length. split; eauto.
   - (* FScalarSum *) destruct (cconj w f) as [f'|] eqn:E; cbn [rbind] in Hc; [|discriminate].
     injection Hc as <-. cbn [lenwf]. eauto.
   - (* FTransl *) destruct Hl as [Lt Hl]. destruct (cconj w f) as [f'|] eqn:E; cbn [rbind] in Hc; [|discriminate].
